@@ -22,6 +22,7 @@ type vfC19Query struct {
 	Blocks   bool // StreamBlocks instead of StreamTransactions
 	Start    int  // index into the sorted list of interesting slots
 	Len      int  // range length in slots (end = start+Len); -1: end omitted
+	EdgeStart bool // start at one of the last archived blocks of an epoch that has a loaded successor
 	NoFilter bool
 	Vote     int // 0 absent, 1 true, 2 false
 	Failed   int
@@ -99,10 +100,22 @@ func vfC19run(c *vfC19Case, gsfa bool, st map[string]int, outTx map[int][]string
 	}
 	for qi, q := range c.Queries {
 		start := slots[q.Start%len(slots)]
+		if q.EdgeStart && len(l.eps) >= 2 {
+			// start at one of the last three archived blocks of an epoch that has a loaded successor
+			older := l.eps[q.Start%(len(l.eps)-1)]
+			k := (q.Start / 7) % min(3, len(older.Blocks))
+			start = older.Blocks[len(older.Blocks)-1-k].Slot
+		}
 		end := start + 100
 		var endPtr *uint64
 		if q.Len >= 0 {
 			end = start + uint64(q.Len)
+			if q.EdgeStart && len(l.eps) >= 2 {
+				// ... and end q.Len slots after the first archived block of the successor, when that is close
+				if nf := l.eps[q.Start%(len(l.eps)-1)+1].Blocks[0].Slot; nf > start && nf-start <= 1000 {
+					end = nf + uint64(q.Len)
+				}
+			}
 			e := end
 			endPtr = &e
 		}
@@ -317,6 +330,33 @@ func vfC19run(c *vfC19Case, gsfa bool, st map[string]int, outTx map[int][]string
 			}
 			if len(eps) >= 2 {
 				st["range-across-epochs"]++
+				// an included account that no transaction of a newer epoch of the range mentions (it is not in that
+				// epoch's address index at all) while an older epoch of the range has matching transactions
+				if !q.NoFilter {
+					for _, a := range q.Include {
+						absentNewer := uint64(0)
+						for _, ep := range l.eps {
+							if !eps[ep.Spec.Epoch] {
+								continue
+							}
+							any := false
+							for _, t := range ep.Txs {
+								if vfC19mentions(t, cargen.Acct(a)) {
+									any = true
+								}
+							}
+							if !any && ep.Spec.Epoch > absentNewer {
+								absentNewer = ep.Spec.Epoch
+							}
+						}
+						for _, w := range want {
+							if absentNewer > 0 && w.slot/cargen.SlotsPerEpoch < absentNewer && vfC19mentions(w.tx, cargen.Acct(a)) {
+								st["include-account-absent-from-newer-epoch"]++
+								break
+							}
+						}
+					}
+				}
 			}
 		}
 	}
@@ -346,6 +386,41 @@ func vfC19eval(c *vfC19Case, st map[string]int) error {
 	return nil
 }
 
+// vfC19retire rewrites the epoch spec so that no transaction mentions the given accounts of the universe.
+func vfC19retire(s *cargen.EpochSpec, retired []int, universe int) {
+	ban := map[int]bool{}
+	for _, a := range retired {
+		ban[a] = true
+	}
+	if len(ban) >= universe {
+		return
+	}
+	for bi := range s.Blocks {
+		for ei := range s.Blocks[bi].Entries {
+			txs := s.Blocks[bi].Entries[ei].Txs
+			for ti := range txs {
+				used := map[int]bool{}
+				fix := func(in []int) []int {
+					var out []int
+					for _, a := range in {
+						for ban[a] {
+							a = (a + 1) % universe
+						}
+						if !used[a] {
+							used[a] = true
+							out = append(out, a)
+						}
+					}
+					return out
+				}
+				txs[ti].Accounts = fix(txs[ti].Accounts)
+				txs[ti].LoadedW = fix(txs[ti].LoadedW)
+				txs[ti].LoadedR = fix(txs[ti].LoadedR)
+			}
+		}
+	}
+}
+
 func vfC19opts() cargen.GenOpts {
 	o := cargen.DefaultOpts()
 	o.MaxBlocks = 8
@@ -359,11 +434,12 @@ func vfC19opts() cargen.GenOpts {
 	return o
 }
 
-func vfC19genQuery(rt *rapid.T) vfC19Query {
+func vfC19genQuery(rt *rapid.T, retired []int) vfC19Query {
 	q := vfC19Query{}
 	q.Blocks = rapid.IntRange(0, 3).Draw(rt, "blocks") == 0
 	q.Start = rapid.IntRange(0, 200).Draw(rt, "start")
 	q.Len = rapid.SampledFrom([]int{-1, 0, 1, 3, 10, 30, 100, 700}).Draw(rt, "len")
+	q.EdgeStart = rapid.IntRange(0, 2).Draw(rt, "edgeStart") == 0
 	q.NoFilter = rapid.IntRange(0, 5).Draw(rt, "noFilter") == 0
 	q.Vote = rapid.IntRange(0, 2).Draw(rt, "vote")
 	q.Failed = rapid.IntRange(0, 2).Draw(rt, "failed")
@@ -379,13 +455,18 @@ func vfC19genQuery(rt *rapid.T) vfC19Query {
 			q.Required = rapid.SliceOfNDistinct(rapid.IntRange(0, 6), 0, 2, rapid.ID[int]).Draw(rt, "required")
 		}
 	}
+	if q.EdgeStart && len(retired) > 0 && rapid.Bool().Draw(rt, "includeRetired") {
+		// only an account that some later epoch never mentions
+		q.NoFilter, q.Blocks = false, false
+		q.Include, q.Exclude, q.Required = []int{rapid.SampledFrom(retired).Draw(rt, "retiredAcct")}, nil, nil
+	}
 	return q
 }
 
 func TestVfC19(t *testing.T) {
 	run := vfh.Begin("C19", "streams")
 	defer run.End(t)
-	run.Require("tx-range-with-skipped-slot", "tx-filter-accepts-and-rejects", "blocks-range-with-skipped-slot", "range-across-epochs", "nontrivial")
+	run.Require("tx-range-with-skipped-slot", "tx-filter-accepts-and-rejects", "blocks-range-with-skipped-slot", "range-across-epochs", "nontrivial", "include-account-absent-from-newer-epoch")
 	for _, p := range vfh.ReplayFiles("C19", "streams") {
 		var c vfC19Case
 		if err := vfh.LoadCaseFile(p, &c); err != nil {
@@ -402,7 +483,8 @@ func TestVfC19(t *testing.T) {
 		c := &vfC19Case{}
 		ne := rapid.SampledFrom([]int{1, 2, 2, 3}).Draw(rt, "epochs")
 		base := uint64(rapid.IntRange(0, 3).Draw(rt, "baseEpoch"))
-		adjacent := rapid.Bool().Draw(rt, "adjacent")
+		adjacent := rapid.IntRange(0, 3).Draw(rt, "adjacent") > 0
+		var retiredLater []int
 		for i := 0; i < ne; i++ {
 			s := cargen.Gen(rt, opts)
 			s.Epoch = base
@@ -411,19 +493,29 @@ func TestVfC19(t *testing.T) {
 			} else {
 				base += uint64(rapid.IntRange(1, 2).Draw(rt, "epochGap"))
 			}
-			if i > 0 && rapid.Bool().Draw(rt, "nearEdge") {
+			if i > 0 && rapid.IntRange(0, 3).Draw(rt, "nearEdge") > 0 {
 				// put the first block close to the start of the epoch so that ranges can cross the boundary
 				s.Blocks[0].Gap = rapid.IntRange(0, 3).Draw(rt, "edgeGap")
+			}
+			if rapid.Bool().Draw(rt, "retire") {
+				// some accounts of the universe are never mentioned in this epoch (they are missing from its address index)
+				ret := rapid.SliceOfNDistinct(rapid.IntRange(0, opts.Universe-1), 1, 3, rapid.ID[int]).Draw(rt, "retired")
+				vfC19retire(s, ret, opts.Universe)
+				if i > 0 {
+					retiredLater = append(retiredLater, ret...)
+				}
 			}
 			c.Specs = append(c.Specs, s)
 		}
 		// last block of the first epoch near its end in some cases
-		if ne > 1 && adjacent && rapid.Bool().Draw(rt, "tailNearEdge") {
-			c.Specs[0].Blocks[0].Gap = cargen.SlotsPerEpoch - 5000 + 4900 + rapid.IntRange(0, 60).Draw(rt, "tailGap")
+		for i := 0; i+1 < ne; i++ {
+			if adjacent && rapid.IntRange(0, 3).Draw(rt, "tailNearEdge") > 0 {
+				c.Specs[i].Blocks[0].Gap = cargen.SlotsPerEpoch - 5000 + 4900 + rapid.IntRange(0, 60).Draw(rt, "tailGap")
+			}
 		}
 		nq := rapid.IntRange(4, 14).Draw(rt, "queries")
 		for i := 0; i < nq; i++ {
-			c.Queries = append(c.Queries, vfC19genQuery(rt))
+			c.Queries = append(c.Queries, vfC19genQuery(rt, retiredLater))
 		}
 		run.SetLast(c)
 		st := map[string]int{}
